@@ -310,8 +310,9 @@ func (e *SpecEnv) expr(x Expr) (tv, error) {
 		case *types.Array:
 			return tv{t: fmt.Sprintf("(select %s %s)", a.t, i.t), ty: u.Elem()}, nil
 		case *types.Map:
-			_, valh, _ := d.mapHeaps(u)
-			return tv{t: fmt.Sprintf("(select (select %s %s) %s)", e.heap(valh), a.t, i.t), ty: u.Elem()}, nil
+			// Go semantics: zero value for absent keys and nil maps
+			dom, valh, _ := d.mapHeaps(u)
+			return tv{t: fmt.Sprintf("(ite (and (not (= %s 0)) (select (select %s %s) %s)) (select (select %s %s) %s) %s)", a.t, e.heap(dom), a.t, i.t, e.heap(valh), a.t, i.t, d.zero(u.Elem())), ty: u.Elem()}, nil
 		case *types.Basic:
 			if d.sortOf(a.ty) == "String" {
 				return tv{t: fmt.Sprintf("(str.to_code (str.at %s %s))", a.t, i.t), ty: types.Typ[types.Uint8]}, nil
@@ -542,6 +543,16 @@ func (e *SpecEnv) binary(n *EBinary) (tv, error) {
 		return tv{}, fmt.Errorf("'in' needs a map on the right: %s", n.Y.String())
 	}
 	srt := d.sortOf(pickType(a, b))
+	if srt == "Str" {
+		d.strUFDecls()
+		switch n.Op {
+		case "+":
+			return tv{t: fmt.Sprintf("(str.cat %s %s)", a.t, b.t), ty: pickType(a, b)}, nil
+		case "<":
+			return tv{t: fmt.Sprintf("(str.lt %s %s)", a.t, b.t), ty: tBool}, nil
+		}
+		return tv{}, fmt.Errorf("unsupported string operator %s with uninterpreted strings", n.Op)
+	}
 	if srt == "String" {
 		switch n.Op {
 		case "+":
@@ -750,6 +761,20 @@ func (e *SpecEnv) call(n *ECall) (tv, error) {
 			case "replaceAll":
 				return tv{t: fmt.Sprintf("(str.replace_all %s %s %s)", as[0].t, as[1].t, as[2].t), ty: tString}, nil
 			}
+		case "fresh":
+			as, err := argv()
+			if err != nil {
+				return tv{}, err
+			}
+			if e.st == nil || e.old == nil {
+				return tv{t: "true", ty: tBool}, nil
+			}
+			a := asPtr(as[0])
+			ref := a.t
+			if d.sortOf(a.ty) == "Slice" {
+				ref = fmt.Sprintf("(s.arr %s)", a.t)
+			}
+			return tv{t: fmt.Sprintf("(and (>= %s %s) (< %s %s))", ref, vc.stGet0(e.old, "$alloc"), ref, vc.stGet0(e.st, "$alloc")), ty: tBool}, nil
 		case "typetag":
 			as, err := argv()
 			if err != nil {
